@@ -5,11 +5,11 @@ import os
 import vf
 
 
-def peer_writer_discipline(ctx):
+def peer_writer_discipline(ctx, pkg="internal/app/referenceclient", hdir="refclient", test="TestVerifRefClient", leg="refclient", who="reference client"):
     """RefClient.tla: the reference client's main loop (bounded parallelism, one writer at a time on stdout,
     exactly one response per request read, failure latch) - the peer-side precondition of the framing property."""
     q = ctx.quick
-    mc = ctx.tlc("RefClient", "MC_RefClient.cfg", deadlock=True, timeout=1200)
+    mc = ctx.tlc("RefClient", "MC_RefClient.cfg", deadlock=True, timeout=1200) if leg == "refclient" else None
     g = ctx.tlc("Gen_RefClient", "Gen_RefClient.cfg", workers=1, simulate="num=%d" % (600 if q else 12000), depth=200, timeout=1200)
     seen, scns = set(), []
     for s in g.json_lines("SCN "):
@@ -17,15 +17,15 @@ def peer_writer_discipline(ctx):
         if k not in seen:
             seen.add(k)
             scns.append(s)
-    scnp, outp = os.path.join(ctx.build, "rc.scn"), os.path.join(ctx.build, "rc.out")
+    scnp, outp = os.path.join(ctx.build, leg + ".scn"), os.path.join(ctx.build, leg + ".out")
     vf.write_ndjson(scnp, scns)
-    binp = ctx.go_test_bin("internal/app/referenceclient", ["refclient"], race=True)
-    p = ctx.run_harness(binp, "TestVerifRefClient", env=dict(VERIF_SCN=scnp, VERIF_OUT=outp, VERIF_P=2, VERIF_NREQ=4), timeout=3000, check=False)
+    binp = ctx.go_test_bin(pkg, [hdir], race=True)
+    p = ctx.run_harness(binp, test, env=dict(VERIF_SCN=scnp, VERIF_OUT=outp, VERIF_P=2, VERIF_NREQ=4), timeout=3000, check=False)
     if "WARNING: DATA RACE" in p.stdout:
         i = p.stdout.index("WARNING: DATA RACE")
-        ctx.candidate(dict(kind="race", leg="refclient"), "data race in the reference client loop:\n" + p.stdout[i:i + 3000], dict(kind="race", report=p.stdout[i:i + 3000]))
+        ctx.candidate(dict(kind="race", leg=leg), "data race in the %s loop:" % who + "\n" + p.stdout[i:i + 3000], dict(kind="race", report=p.stdout[i:i + 3000]))
     elif p.returncode != 0:
-        raise vf.Machinery("refclient harness failed rc=%d\n%s" % (p.returncode, p.stdout[-3000:]))
+        raise vf.Machinery(leg + " harness failed rc=%d\n%s" % (p.returncode, p.stdout[-3000:]))
     traces = vf.read_ndjson(outp)
     unrep = 0
     for t in traces:
@@ -35,9 +35,9 @@ def peer_writer_discipline(ctx):
             if t["hang"].startswith("UNREPRODUCED"):
                 unrep += 1
                 continue
-            ctx.candidate(dict(kind="hang", leg="refclient"), "reference client: %s; schedule=%s" % (t["hang"], json.dumps(t["schedule"])), t)
+            ctx.candidate(dict(kind="hang", leg=leg), "%s: %s; schedule=%s" % (who, t["hang"], json.dumps(t["schedule"])), t)
     ok = [t for t in traces if not t.get("hang")]
-    trp = os.path.join(ctx.build, "rc.trace")
+    trp = os.path.join(ctx.build, leg + ".trace")
     vf.write_ndjson(trp, [dict(events=t["events"]) for t in ok])
     r = ctx.tlc("Trace_RefClient", "Trace_RefClient.cfg", workers=4, env=dict(VERIF_TRACE=trp), timeout=2400)
     acc = {int(x) - 1 for x in r.lines("ACCEPT ")}
@@ -48,7 +48,7 @@ def peer_writer_discipline(ctx):
         counts = [1] * len(again_scn)
         for rnd in range(2):
             vf.write_ndjson(scnp, again_scn)
-            ctx.run_harness(binp, "TestVerifRefClient", env=dict(VERIF_SCN=scnp, VERIF_OUT=outp, VERIF_P=2, VERIF_NREQ=4), timeout=3000, check=False)
+            ctx.run_harness(binp, test, env=dict(VERIF_SCN=scnp, VERIF_OUT=outp, VERIF_P=2, VERIF_NREQ=4), timeout=3000, check=False)
             tr2 = vf.read_ndjson(outp)
             vf.write_ndjson(trp, [dict(events=t["events"]) for t in tr2])
             r2 = ctx.tlc("Trace_RefClient", "Trace_RefClient.cfg", workers=4, env=dict(VERIF_TRACE=trp), timeout=2400)
@@ -59,18 +59,18 @@ def peer_writer_discipline(ctx):
         for j, i in enumerate(rejected[:100]):
             if counts[j] >= 2:
                 t = ok[i]
-                ctx.candidate(dict(kind="trace-rejected", leg="refclient", last=[e["e"] for e in t["events"]][-3:]),
-                              "reference client execution is not a behaviour of RefClient (rejected %d/3): schedule=%s events=%s" % (
-                                  counts[j], json.dumps(t["schedule"]), json.dumps(t["events"])[:800]), t)
+                ctx.candidate(dict(kind="trace-rejected", leg=leg, last=[e["e"] for e in t["events"]][-3:]),
+                              "%s execution is not a behaviour of RefClient (rejected %d/3): schedule=%s events=%s" % (
+                                  who, counts[j], json.dumps(t["schedule"]), json.dumps(t["events"])[:800]), t)
             else:
                 unrep += 1
     if unrep and not ctx.violations:
-        ctx.notes["refclient_unreproduced"] = unrep
+        ctx.notes[leg + "_unreproduced"] = unrep
     ctx.cov["traces_validated_against_impl"] += len(ok)
     ctx.cov["evaluations"] += len(traces)
-    ctx.notes["refclient"] = dict(mc_distinct=mc.distinct, schedules=len(scns), accepted=len(acc))
+    ctx.notes[leg] = dict(mc_distinct=mc.distinct if mc else None, schedules=len(scns), accepted=len(acc))
     if ok:
-        ctx.sample(dict(refclient_schedule=ok[0]["schedule"], events=[(e["e"], e.get("i", e.get("r", e.get("ok", "")))) for e in ok[0]["events"]]))
+        ctx.sample(dict(leg=leg, schedule=ok[0]["schedule"], events=[(e["e"], e.get("i", e.get("r", e.get("ok", "")))) for e in ok[0]["events"]]))
 
 
 def run(ctx):
@@ -146,6 +146,8 @@ def run(ctx):
     ctx.cov["distinct_nontrivial"] += len({json.dumps(r["obs"]) + str(r["lens"]) for r in recs if len(r["obs"]) > 1 or r["obs"][0]["k"] != "EOF"})
     ctx.sample(recs[0])
     peer_writer_discipline(ctx)
+    # the grpc-go reference client has the same loop: same spec, second implementation
+    peer_writer_discipline(ctx, "internal/app/grpcclient", "grpcclient", "TestVerifGrpcClient", "grpcclient", "grpc-go reference client")
     ctx.cov["exhaustive"] = False
     ctx.cov["rule"] = ("TLC enumerates every chunking (incl. EOF-with-data) x cut x end kind of every stream within MaxTotal bytes "
                        "(exhaustive part) and random walks of the same machine for longer streams; each is replayed on "
